@@ -54,3 +54,10 @@ def rand_shape(rng, max_rank=4, lens=(1, 1, 2, 3, 4), min_rank=1):
 
 def axis_spellings(ax, rank):
     return [ax, ax - rank]
+
+
+# shapes whose TOTAL element count crosses the thresholds where blocked / tiled / parallel fast paths typically engage
+# (> 256, > 1024), non-square and with partial last tiles (seeded change C06h: a tiled transpose for > 256 elements)
+BIG_SHAPES_2D = [[16, 17], [17, 32], [33, 18], [3, 100], [12, 40], [40, 45]]
+BIG_SHAPES_ND = [[5, 7, 9], [2, 3, 4, 13], [9, 1, 31], [2, 2, 2, 2, 17]]
+BIG_SHAPES_1D = [[257], [300], [1100]]
